@@ -193,19 +193,62 @@ def run_lines(exe, lines, tag, timeout=1500):
         return out, bad
 
 
+def _toks(rest):
+    toks = []
+    for t in rest.split(" "):
+        if not t:
+            continue
+        k, _, v = t.partition("=")
+        toks.append((k, v))
+    return toks
+
+
+class LazyOut:
+    """id -> list of (tag, value-string), parsed on demand from the raw output line: one string per case is kept
+    (a parsed thorough-tier stream is tens of gigabytes of tuples)"""
+    __slots__ = ("raw",)
+
+    def __init__(self, lines=()):
+        self.raw = {}
+        for ln in lines:
+            i = ln.find(" ")
+            if i < 0:
+                self.raw[ln] = ""
+            else:
+                self.raw[ln[:i]] = ln[i + 1:]
+
+    def get(self, k, default=None):
+        r = self.raw.get(k)
+        if r is None:
+            return default
+        return _toks(r)
+
+    def __contains__(self, k):
+        return k in self.raw
+
+    def __len__(self):
+        return len(self.raw)
+
+    def keys(self):
+        return self.raw.keys()
+
+
+class Joined:
+    """lookup over several LazyOut maps (first hit wins)"""
+
+    def __init__(self, maps):
+        self.maps = list(maps)
+
+    def get(self, k, default=None):
+        for m in self.maps:
+            if k in m:
+                return m.get(k)
+        return default
+
+
 def parse_out(lines):
-    """id -> list of (tag, value-string)"""
-    d = {}
-    for ln in lines:
-        parts = ln.split(" ")
-        toks = []
-        for t in parts[1:]:
-            if not t:
-                continue
-            k, _, v = t.partition("=")
-            toks.append((k, v))
-        d[parts[0]] = toks
-    return d
+    """id -> list of (tag, value-string), lazily"""
+    return LazyOut(lines)
 
 
 def case_ids(lines):
